@@ -267,4 +267,51 @@ example : scanFindings ["t.py"]
     ⟨"test_a", 1, ["self", "request"] ++ ["retries"], [], [⟨"retries", 2, 4, 11⟩, ⟨"other", 3, 4, 9⟩]⟩ (fun _ => true)
     = [⟨"other", ["t.py"], 3, 4, 9, "test_a", 1⟩] := by decide
 
+/-- **C17 (only parameters declare).** Whatever decorators a function carries — `@pytest.mark.usefixtures("x")` included —
+    the names its body scan treats as declared are `self`, `request`, its parameters and, for a fixture, its own name:
+    a fixture requested through a mark is still an undeclared name in the body. -/
+theorem C17_declared_is_parameters (f : Path) (lines : List Chars) (modNames : List String) (name : String)
+    (decos : List Expr) (args : Args) (returns : Option Expr) (body : List Stmt) (r : Range) (b : BodyScan)
+    (hb : Event.scan b ∈ visitFunction f lines modNames name decos args returns body r) :
+    b.declared = ["self", "request"] ++ args.all.map (·.name) ∨
+    b.declared = ["self", "request", name] ++ args.all.map (·.name) := by
+  unfold visitFunction at hb
+  have hmarks : ∀ (l : List (String × Range)), Event.scan b ∉ l.map (strUsage f lines) := by
+    intro l h
+    obtain ⟨p, _, hp⟩ := List.mem_map.mp h
+    simp [strUsage] at hp
+  have hnot : Event.scan b ∉ decos.flatMap (fun d => (usefixturesNames d).map (strUsage f lines)) ++
+      decos.flatMap (fun d => (parametrizeIndirect d).map (strUsage f lines)) := by
+    intro h
+    rw [List.mem_append] at h
+    rcases h with h | h <;>
+    · obtain ⟨d, _, hd⟩ := List.mem_flatMap.mp h
+      exact hmarks _ hd
+  cases hfd : decos.find? isFixtureDecorator with
+  | none =>
+    simp only [hfd, List.mem_append] at hb
+    rcases hb with hb | hb
+    · exact absurd (List.mem_append.mpr hb) hnot
+    · left
+      unfold testEvents at hb
+      split at hb
+      · rw [List.mem_append] at hb
+        rcases hb with hb | hb
+        · obtain ⟨a, _, ha⟩ := List.mem_map.mp hb
+          simp [argUsage] at ha
+        · simp only [List.mem_singleton, Event.scan.injEq] at hb
+          subst hb; rfl
+      · simp at hb
+  | some deco =>
+    simp only [hfd, List.mem_append] at hb
+    rcases hb with hb | hb
+    · exact absurd (List.mem_append.mpr hb) hnot
+    · right
+      unfold fixtureEvents at hb
+      simp only [List.mem_append, List.mem_singleton, List.mem_map, Event.scan.injEq, reduceCtorEq, false_or] at hb
+      rcases hb with hb | hb
+      · obtain ⟨a, _, ha⟩ := hb
+        simp [argUsage] at ha
+      · subst hb; rfl
+
 end PLS
